@@ -33,14 +33,14 @@ def app_trace(s):
     return out
 
 
-def attack_packets(rng, ufrag_target, ufrag_peer, n):
+def attack_packets(rng, ufrag_target, ufrag_peer, n, kinds=None):
     """returns list of (kind, bytes)"""
     pk = []
     uname = (ufrag_target + ":" + ufrag_peer).encode()
     for _ in range(n):
-        kind = rng.choice(["random", "random-stunlike", "req-nomi", "req-trunc", "req-empty", "req-long", "req-wrongkey",
+        kind = rng.choice(kinds) if kinds else rng.choice(["random", "random-stunlike", "req-nomi", "req-trunc", "req-empty", "req-long", "req-wrongkey",
                            "req-wrongkey-fp", "resp-forged", "err487", "err403", "indication", "rtp", "othermethod",
-                           "req-wrongkey-badfp"])
+                           "req-wrongkey-badfp", "indication-bare", "indication-wrongkey"])
         txid = bytes(rng.randrange(256) for _ in range(12))
         attrs = [(stunpy.A_USERNAME, uname), (stunpy.A_PRIORITY, struct.pack("!I", rng.randrange(1, 2 ** 31))),
                  (stunpy.A_CONTROLLING, struct.pack("!Q", 2 ** 64 - 1)), (stunpy.A_USE_CAND, b"")]
@@ -75,6 +75,10 @@ def attack_packets(rng, ufrag_target, ufrag_peer, n):
             p = stunpy.build(3, 1, txid, [(stunpy.A_ERROR, stunpy.error_attr(403))], key=wrongkey, fingerprint=True)
         elif kind == "indication":
             p = stunpy.build(1, 1, txid, attrs[:1], key=None, fingerprint=True)
+        elif kind == "indication-bare":
+            p = stunpy.build(1, 1, txid, [], key=None, fingerprint=rng.random() < 0.5)
+        elif kind == "indication-wrongkey":
+            p = stunpy.build(1, 1, txid, attrs, key=wrongkey, fingerprint=True)
         elif kind == "othermethod":
             p = stunpy.build(rng.randrange(4), rng.choice([2, 3, 4, 6, 8, 9, 0xfff]), txid, attrs, key=wrongkey, fingerprint=True)
         else:
@@ -90,6 +94,10 @@ def session(exe, seed, attack):
     cfg = sc.base_config(rng)
     lat = rng.choice([1, 5, 20])
     cfg.update(loss=0, dup=0, lat=lat, anyorder=False)
+    # a third of the sessions: consent freshness on, the peer vanishes after READY while the attacker keeps talking
+    vanish = rng.random() < 0.35
+    if vanish:
+        cfg.update(consent=1)
     s = sc.start_session(exe, seed, cfg)
     s.op(f"net latency {lat} {lat}")          # constant latency: the network draws no random numbers
     s.op("net tickcost 0")                    # dispatching costs no virtual time: injected packets cannot shift timing
@@ -106,11 +114,11 @@ def session(exe, seed, attack):
     n_inj = 0
     s.inj_sources = {}      # payload hex -> set of "foreign" / "spoofed"
 
-    def inject(k):
+    def inject(k, kinds=None):
         nonlocal n_inj
         if not attack:
             return
-        for kind, p in attack_packets(arng, ub if arng.random() < 0.5 else ua, ua, k):
+        for kind, p in attack_packets(arng, ub if arng.random() < 0.5 else ua, ua, k, kinds):
             tgt = arng.choice("AB")
             dst = arng.choice(addrs[tgt])
             other = "A" if tgt == "B" else "B"
@@ -136,6 +144,15 @@ def session(exe, seed, attack):
     s.op("runidle 60000")
     inject(8)
     s.op("run 500")
+    if vanish:
+        # both directions go dark for 45 s (longer than the 30 s consent timeout); injected datagrams still arrive.
+        # Unauthenticated traffic must not stand in for the peer's consent: both runs must fail at the same instant.
+        t0 = int(re.search(r"t=(\d+)", s.op("stats")[1]).group(1))
+        s.op(f"net blackout * * {t0} {t0 + 45000}")
+        for _ in range(45):
+            inject(2, ["indication", "indication-bare", "indication-wrongkey", "resp-forged", "req-wrongkey-fp", "req-nomi", "rtp"])
+            s.op("run 1000")
+        s.op("run 3000")
     # legitimate data still flows
     s.op("send A 1 1 c0ffee")
     s.op("run 100")
